@@ -224,15 +224,16 @@ def matchedIntensityPercentage [Num α] (ms : List (α × α)) (intensities : Li
 
 /-! ## get_match_coverage -/
 
-/-- what `get_match_coverage` reads of one `FragmentMatch`: a key identifying the fragment,
+/-- what `get_match_coverage` reads of one `FragmentMatch`: a key identifying the fragment (in the code the tuple
+`(label, start, end, isotope, loss, monoisotopic, internal)`; any type with decidable equality here),
 the label `'+'*charge + ion_type` (kept as the pair), `start`, `end` -/
-structure CovIn where
-  key : Nat
+structure CovIn (κ : Type) where
+  key : κ
   charge : Nat
   ion : String
   start : Nat
   stop : Nat
-  deriving Repr
+  deriving Repr, DecidableEq
 
 def bump (start stop : Nat) (l : List Nat) : List Nat :=
   l.mapIdx fun i c => if start ≤ i ∧ i < stop then c + 1 else c
@@ -249,15 +250,15 @@ def covTouch (n : Nat) (label : Nat × String) :
 
 /-- `dedupe = false`: one increment per match (a fragment matched to k peaks counts k times);
 `dedupe = true`: each fragment (key) counted once. `cov[label][i] += 1` with `i ≥ n` raises IndexError. -/
-def matchCoverageGo (dedupe : Bool) (n : Nat) :
-    List CovIn → List Nat → List ((Nat × String) × List Nat) → Except Err (List ((Nat × String) × List Nat))
+def matchCoverageGo {κ : Type} [DecidableEq κ] (dedupe : Bool) (n : Nat) :
+    List (CovIn κ) → List κ → List ((Nat × String) × List Nat) → Except Err (List ((Nat × String) × List Nat))
   | [], _, cov => .ok cov
   | m :: ms, seen, cov =>
     if dedupe && seen.contains m.key then matchCoverageGo dedupe n ms seen (covTouch n (m.charge, m.ion) cov)
     else if m.start < m.stop ∧ m.stop > n then .error .indexError
     else matchCoverageGo dedupe n ms (m.key :: seen) (covAdd n (m.charge, m.ion) m.start m.stop cov)
 
-def matchCoverage (dedupe : Bool) (n : Nat) (ms : List CovIn) :=
+def matchCoverage {κ : Type} [DecidableEq κ] (dedupe : Bool) (n : Nat) (ms : List (CovIn κ)) :=
   matchCoverageGo dedupe n ms [] []
 
 end Score
